@@ -62,6 +62,11 @@ func MockSpecs(thorough bool) []*spec.Spec {
 		[]*spec.Message{spec.M("Left", spec.Msg("addr", "Address")), spec.M("Right", spec.Msg("addr", "Address"), spec.F("tag", "string").Ex("x", "y")), addr()}, nil)
 	mk("examples_map_and_singular", "kind=message,card=map+singular,examples=parsable",
 		spec.M("Resp", spec.Msg("by_key", "Address").Map(), spec.Msg("main", "Address")), []*spec.Message{addr()}, nil)
+	mk("examples_optional", "kind=string,card=optional,examples=parsable", spec.M("Resp", spec.F("val", "string").Opt().Ex("o1", "o2"), spec.F("n", "int32").Opt().Ex("5", "6")), nil, nil)
+	mk("examples_repeated", "kind=string,card=repeated,examples=parsable", spec.M("Resp", spec.F("val", "string").Rep().Ex("r1", "r2"), spec.F("n", "int64").Rep().Ex("7", "8")), nil, nil)
+	mk("examples_oneof_member", "kind=oneof,card=singular,examples=parsable",
+		spec.M("Resp", spec.F("a", "string").In("pick").Ex("a1", "a2"), spec.F("b", "int64").In("pick").Ex("1", "2")).WithOneof(&spec.Oneof{Name: "pick"}), nil, nil)
+	mk("examples_int32_float", "kind=int32,card=singular,examples=parsable", spec.M("Resp", spec.F("val", "int32").Ex("3", "-4"), spec.F("f", "float").Ex("0.5", "2")), nil, nil)
 	mk("examples_quote", "kind=string,card=singular,examples=quote", spec.M("Resp", spec.F("val", "string").Ex(`say "hi"`, `back\slash`)), nil, nil)
 	return out
 }
